@@ -126,6 +126,9 @@ def run(pm, ctx):
     ctx.rule('C07-R4', 'Attribute.__get__ returns None (nullable) or the default for an unset slot '
                        'and raises only when neither exists')
     ctx.rule('C07-R5', 'under strict, each kind of unknown material reaches a ValidationError')
+    ctx.rule('C07-R6', 'the generated union class gets `_catch_all = <name>` exactly when the union '
+                       'has its own catch-all field and `_catch_all = None` exactly when it has '
+                       'neither a catch-all field nor a parent (a child inherits its parent\'s)')
 
     funcs = {n: pm.func(DEC + '.' + n) for n in
              ('decode_struct', 'decode_struct_fields', 'decode_union', 'decode_union_dict',
@@ -334,3 +337,43 @@ def run(pm, ctx):
               'set slot -> stored value', g.loc,
               msg='Attribute.__get__ does not return the stored value of a set slot',
               key='C07-R4|%s|value' % g.qualname)
+
+    # R6: generator side of the catch-all marker
+    g = pm.func('stone.backends.python_types.PythonTypesBackend._generate_union_class_vars')
+    pi = path_info(g.node)
+
+    def gkey(e):
+        if isinstance(e, ast.Attribute) and e.attr == 'catch_all_field':
+            return 'caf'
+        if isinstance(e, ast.Attribute) and e.attr == 'parent_type':
+            return 'parent'
+        return ('other', unparse(e))
+    seen = {'none': 0, 'name': 0}
+    for n in own_nodes(g.node):
+        if isinstance(n, ast.Call) and isinstance(n.func, ast.Attribute) and n.func.attr == 'emit' \
+                and n.args and '_catch_all' in unparse(n.args[0]):
+            txt = unparse(n.args[0])
+            kind = 'none' if "= None" in txt else 'name'
+            seen[kind] += 1
+            table = conds_truth(pi.at(n), gkey, ['caf', 'parent'])
+            if kind == 'none':
+                want = {(False, False): True, (True, False): False, (False, True): False,
+                        (True, True): False}
+            else:
+                want = {(False, False): False, (True, False): True, (False, True): False,
+                        (True, True): True}
+            ctx.check('C07-R6', table == want,
+                      '_generate_union_class_vars: emission of `%s` over {catch_all_field, parent}'
+                      % txt[:40], '%s:%d' % (g.module.relpath, n.lineno),
+                      msg='catch-all marker %s is emitted under the wrong condition: %s' % (
+                          txt[:40], {k: v for k, v in table.items() if v}),
+                      key='C07-R6|%s|%s' % (g.qualname, kind))
+            if kind == 'name':
+                ctx.check('C07-R6', 'catch_all_field.name' in txt,
+                          'marker names the catch-all field', '%s:%d' % (g.module.relpath, n.lineno),
+                          msg='the emitted _catch_all is not the catch-all field name',
+                          key='C07-R6|%s|name-value' % g.qualname)
+    ctx.check('C07-R6', seen['none'] == 1 and seen['name'] == 1,
+              '_generate_union_class_vars emits both forms of the marker', g.loc,
+              msg='expected one `_catch_all = None` and one named emission, found %r' % seen,
+              key='C07-R6|%s|forms' % g.qualname)
